@@ -268,6 +268,7 @@ static void run_history(mt_case * c, int prop) {
       if (o->a == 0) d_ns = now_ns - 5 * clk_step - 1000; else if (o->a == 1) d_ns = now_ns + 4 * clk_step; else { d_ns = now_ns + 4000000000000L; n->release = 1; }
       if (d_ns < 0) d_ns = 0;
       dl.tv_sec = CLK_BASE_S + d_ns / 1000000000L; dl.tv_nsec = d_ns % 1000000000L;
+      if (o->a == 2 && (o->slot & 1)) { dl.tv_sec = (o->slot & 2) ? 0x7fffffffffffffffL : 20000000000L; dl.tv_nsec = (o->slot & 2) ? 999999999L : 0; d_ns = 0x7fffffffffffffffL; }   /* the "never" idioms */
       void * rv = 0;
       lthread_t * le = n->le ? n->le : ledger_of_desc(n->h);
       int prev = le ? le->reap_started : 0; if (le) le->reap_started = 1;
